@@ -110,6 +110,8 @@ class NumEval:
 
     def _interval_refined(self, t):
         lo, hi = self._interval(t)
+        if t == self.sym:
+            return lo, hi
         # refine by facts that compare exactly this term with a bound we can evaluate
         for f in self.facts:
             if f[0] not in ("eq", "ne"):
@@ -133,7 +135,7 @@ class NumEval:
                 for (x, y) in ((c[2], c[3]), (c[3], c[2])):
                     if x != t:
                         continue
-                    ylo, yhi = self._interval(y)
+                    ylo, yhi = self._partner(y)
                     if ylo is None:
                         continue
                     if neq:
@@ -155,7 +157,7 @@ class NumEval:
                 if x != t:
                     continue
                 o = op if not flip else {"Lt": "Gt", "Le": "Ge", "Gt": "Lt", "Ge": "Le"}[op]
-                ylo, yhi = self._interval(y)
+                ylo, yhi = self._partner(y)
                 if ylo is None:
                     continue
                 if o == "Lt" and self._better_hi(yhi - B(1), hi):
@@ -167,6 +169,16 @@ class NumEval:
                 elif o == "Ge" and self._better_lo(ylo, lo):
                     lo = ylo
         return lo, hi
+
+    def _partner(self, y):
+        """interval of the other side of a comparison fact: obligations met while evaluating it are not
+        recorded here (the term is evaluated in its own right wherever the program computes it)"""
+        saved = self.obligations
+        self.obligations = []
+        try:
+            return self._interval(y)
+        finally:
+            self.obligations = saved
 
     def _better_hi(self, new, old):
         return old is None or self.dom.le(new, old)
